@@ -174,7 +174,6 @@ class Derivative(_Limit):
         self.fd_rule = self._fd_rule(n=n, method=method, order=order)
 
         super(Derivative, self).__init__(step=step,  **options)
-        self._set_derivative()
 
     @property
     def n(self):
@@ -184,7 +183,6 @@ class Derivative(_Limit):
     @n.setter
     def n(self, value):
         self.fd_rule.n = value
-        self._set_derivative()
 
     @property
     def order(self):
@@ -219,11 +217,10 @@ class Derivative(_Limit):
             options['step_nom'] = 1.0
         return MinStepGenerator(base_step=step, **options)
 
-    def _set_derivative(self):
+    def _derivative(self, x_i, args, kwds):
         if self.n == 0:
-            self._derivative = self._derivative_zero_order
-        else:
-            self._derivative = self._derivative_nonzero_order
+            return self._derivative_zero_order(x_i, args, kwds)
+        return self._derivative_nonzero_order(x_i, args, kwds)
 
     def _derivative_zero_order(self, x_i, args, kwds):
         steps = [np.zeros_like(x_i)]
